@@ -92,6 +92,9 @@ func c04Scenarios() []c04Scenario {
 			}
 			n, err, good := fn(f)
 			out := []c04Result{{name: name, err: err, good: good, detail: fmt.Sprintf("count %d", n)}}
+			// an end-relative Seek asks the server for the size: after a loss it cannot know it
+			pos, serr := f.Seek(0, io.SeekEnd)
+			out = append(out, c04Result{name: "Seek-to-end", err: serr, good: pos == int64(vfModelSize(4321)), detail: fmt.Sprintf("position %d", pos)})
 			out = append(out, c04Result{name: "Close", err: f.Close(), good: true})
 			return out
 		}
